@@ -12,11 +12,12 @@ VERIF = os.path.dirname(here)
 
 props = [json.loads(l) for l in open(os.path.join(VERIF, "properties.jsonl"))]
 checks, na = [], []
+READY = set(open(os.path.join(here, "ready.txt")).read().split())
 for p in props:
     pid = p["id"]
     modpath = os.path.join(here, "props", pid.lower() + ".py")
     vpath = os.path.join(VERIF, "coq", "Props", pid + ".v")
-    if os.path.exists(modpath) and os.path.exists(vpath):
+    if pid in READY and os.path.exists(modpath) and os.path.exists(vpath):
         src = open(modpath).read()
         def const(name, default=""):
             import ast
